@@ -638,3 +638,68 @@ pub fn socket_session(addr: &str, reqs: &[HttpReq], pipelined: bool, timeout: Du
     }
     out
 }
+
+/// Two Content-Length uploads on two connections whose bodies are written in the order
+/// A.first, B.first, A.rest (A's response is read), B.rest (B's response is read): A completes while
+/// B is suspended in the middle of its body.
+pub fn socket_uploads_abab(addr: &str, a: &HttpReq, b: &HttpReq, timeout: Duration) -> (HttpResp, HttpResp) {
+    fn head(req: &HttpReq, len: usize) -> Vec<u8> {
+        let mut h = Vec::new();
+        h.extend_from_slice(format!("{} {} HTTP/1.1\r\nHost: localhost\r\nConnection: close\r\n", req.method, req.path).as_bytes());
+        for (k, v) in &req.headers {
+            h.extend_from_slice(k.as_bytes());
+            h.extend_from_slice(b": ");
+            h.extend_from_slice(v);
+            h.extend_from_slice(b"\r\n");
+        }
+        h.extend_from_slice(format!("Content-Length: {len}\r\n\r\n").as_bytes());
+        h
+    }
+    fn read_all(s: &mut TcpStream) -> HttpResp {
+        let mut buf = Vec::new();
+        let mut tmp = [0u8; 65536];
+        loop {
+            match s.read(&mut tmp) {
+                Ok(0) => break,
+                Ok(n) => buf.extend_from_slice(&tmp[..n]),
+                Err(e) => {
+                    if buf.is_empty() {
+                        return HttpResp::failed(format!("socket: {e}"));
+                    }
+                    break;
+                }
+            }
+        }
+        parse_response(&buf, false).unwrap_or_else(|| HttpResp::failed("unparsable response".into()))
+    }
+    let inner = || -> std::io::Result<(HttpResp, HttpResp)> {
+        let (ba, bb) = (a.chunks.concat(), b.chunks.concat());
+        let mut sa = TcpStream::connect(addr)?;
+        let mut sb = TcpStream::connect(addr)?;
+        for s in [&sa, &sb] {
+            s.set_read_timeout(Some(timeout))?;
+            s.set_write_timeout(Some(timeout))?;
+            s.set_nodelay(true)?;
+        }
+        let pause = || std::thread::sleep(Duration::from_millis(40));
+        sa.write_all(&head(a, ba.len()))?;
+        sa.write_all(&ba[..ba.len() / 2])?;
+        sa.flush()?;
+        pause();
+        sb.write_all(&head(b, bb.len()))?;
+        sb.write_all(&bb[..bb.len() / 2])?;
+        sb.flush()?;
+        pause();
+        sa.write_all(&ba[ba.len() / 2..])?;
+        sa.flush()?;
+        let ra = read_all(&mut sa);
+        sb.write_all(&bb[bb.len() / 2..])?;
+        sb.flush()?;
+        let rb = read_all(&mut sb);
+        Ok((ra, rb))
+    };
+    match inner() {
+        Ok(r) => r,
+        Err(e) => (HttpResp::failed(format!("socket: {e}")), HttpResp::failed(format!("socket: {e}"))),
+    }
+}
